@@ -57,6 +57,11 @@ def do_user_call(X, node, st):
             if not _is_static(fn):
                 pass  # unbound call with explicit self
             return call_function(X, st, cls, fn, a, kwargs(), node)
+        if f.attr == "__class__":
+            obj = X.ev(f.value, st)
+            if not isinstance(obj, Ref):
+                raise VCError("__class__ of non-object")
+            return construct(X, st, obj.cls, args(), kwargs(), node)
         obj = X.ev(f.value, st)
         if isinstance(obj, ListV):
             X.need(obj, st, "list")
@@ -261,8 +266,15 @@ def apply_contract(X, st, C, env, node):
         X.oblige(f"pre@{line}:{C.qual.split('.')[-1]}[{k}]", st, g, "pre", text=r)
     post = st.cp()
     old_view = State(dict(env), dict(st.heap), post.pc, dict(pre.meta))
+    mods = dict(C.modifies)
+    if C.allocates:
+        for fld in list(st.heap):
+            if not fld.endswith("?") and fld not in ("@el", "@alloc", "@len") and fld not in mods:
+                mods[fld] = None
+        mods.setdefault("@lists", None)
+    C_modifies = mods
     if not C.pure:
-        for fld in C.modifies:
+        for fld in C_modifies:
             if fld == "@lists":
                 for a in ("@len", "@el"):
                     post.heap[a] = fresh(a, post.heap[a].sort())
@@ -272,15 +284,15 @@ def apply_contract(X, st, C, env, node):
             post.heap[fld] = fresh(fld, post.heap[fld].sort())
             if fld + "?" in post.heap:
                 post.heap[fld + "?"] = fresh(fld + "?", post.heap[fld + "?"].sort())
-        if C.modifies:
+        if C_modifies:
             post.heap["@alloc"] = fresh("@alloc", post.heap["@alloc"].sort())
             r = fresh("r")
             post.pc.append(z3.ForAll([r], z3.Implies(st.heap["@alloc"][r], post.heap["@alloc"][r]), patterns=[post.heap["@alloc"][r]]))
-            l = fresh("l")
-            post.pc.append(z3.ForAll([l], post.heap["@len"][l] >= 0, patterns=[post.heap["@len"][l]]))
-        for fld in C.modifies:
-            if fld != "@alloc" and C.modifies[fld] != "*":
-                post.pc.append(frame_term(X, fld, C.modifies, old_view, post.heap))
+            from .engine import heap_typing
+            post.pc += heap_typing(X.ctx, post.heap)
+        for fld in C_modifies:
+            if fld != "@alloc" and C_modifies[fld] != "*":
+                post.pc.append(frame_term(X, fld, C_modifies, old_view, post.heap))
     outs = []
     # exceptional outcomes
     for exc, cond in C.raises.items():
@@ -320,6 +332,8 @@ def list_method(X, st, L, name, node):
         (v,) = args
         if isinstance(v, (TupleV, ConstList)):
             raise VCError("append of tuple/list element")
+        if L.elem == "?":
+            L.elem = ("ref:" + v.cls) if isinstance(v, Ref) else ("list:" + v.elem if isinstance(v, ListV) else "int")
         X.lset_arr(st, L, z3.Store(arr, n, term_of(v)), n + 1)
         return [("n", st, NONE)]
     if name == "extend":
@@ -370,7 +384,7 @@ def list_sort(X, st, L, node):
     ip = z3.Function(f"ipi!{fresh('p')}", I, I)
     k, j = fresh("k"), fresh("j")
     rng = lambda x: z3.And(0 <= x, x < n)
-    st.pc.append(z3.ForAll([k], z3.Implies(rng(k), z3.And(rng(pi(k)), ip(pi(k)) == k, new[k] == arr[pi(k)])), patterns=[pi(k)]))
+    st.pc.append(z3.ForAll([k], z3.Implies(rng(k), z3.And(rng(pi(k)), ip(pi(k)) == k, new[k] == arr[pi(k)])), patterns=[pi(k), new[k]]))
     st.pc.append(z3.ForAll([k], z3.Implies(rng(k), z3.And(rng(ip(k)), pi(ip(k)) == k)), patterns=[ip(k)]))
     key = None
     for kw in node.keywords:
